@@ -83,6 +83,12 @@ def rule_a(R, ctx, rid="C02.a"):
                 bad = [l for l in gs if term_has_call(l.term, *SKIP_UNAWARE)]
                 uses_missing = any(term_has_field(l.term, "PendingUpdate.missing") or
                                    term_has_call(l.term, "yrs::block_store::BlockStore::is_missing") for l in gs)
+                dep = [l for l in gs if term_has_call(l.term, "yrs::update::Update::integrate") and l.polarity in ("None", "Some")]
+                R.ob(rid, au, "retry-independent#%d" % (n - 1), not dep,
+                     "the retry decision does not depend on whether the incoming update left a remainder" if not dep else
+                     "the stash is examined for a retry only under a condition on the result of Update::integrate (%s): a message that "
+                     "delivers the awaited dependency and also leaves blocks of its own never triggers the retry" % [l.desc for l in dep][:2],
+                     "%s:%s" % (au.file, d[3]["line"]))
                 R.ob(rid, au, "retry-condition#%d" % (n - 1), not bad and uses_missing,
                      ("retry decision compares the stashed dependency clock with a skip-unaware frontier: %s" % "; ".join(l.desc for l in bad))
                      if bad else ("retry condition: %s" % [l.desc for l in gs]),
